@@ -1,6 +1,7 @@
 (* Driver of the extracted model of tsp.LIB; case syntax of harness/cmd/c20:
      n;failspec;kind;w=v,v,...      failspec: none | h0 | h1 | h2 | f<j> | eof
-   kind: e/s = transient (only that call fails), E/S = permanent (that call and all later). *)
+   kind: e/s/c = transient (only that call fails: zero count / short count / full count, all
+   with a non-nil error), E/S/C = permanent (that call and all later); w=# = formula weights. *)
 open Model
 open Conv_nat
 open Conv_z
@@ -17,9 +18,13 @@ let () =
       match String.split_on_char ';' line with
       | [ns; failspec; kind; ws] ->
         let n = int_of_string ns in
-        let vals = Array.of_list (List.map z_of_string
-            (List.filter (fun s -> s <> "") (String.split_on_char ',' (String.sub ws 2 (String.length ws - 2))))) in
-        let wt i j = let i = int_of_nat i and j = int_of_nat j in vals.(i * (i - 1) / 2 + j) in
+        let wt =
+          if ws = "w=#" then
+            (fun i j -> let i = int_of_nat i and j = int_of_nat j in z_of_string (string_of_int ((i * 31 + j * 17) mod 1000 - 500)))
+          else
+            let vals = Array.of_list (List.map z_of_string
+              (List.filter (fun s -> s <> "") (String.split_on_char ',' (String.sub ws 2 (String.length ws - 2))))) in
+            (fun i j -> let i = int_of_nat i and j = int_of_nat j in vals.(i * (i - 1) / 2 + j)) in
         (* the model's own chunking: one write per cell and per newline *)
         let chunks (ls : token list list) = nat_of_int (List.fold_left (fun a l -> a + List.length l + 1) 0 ls) in
         let c = int_of_nat (chunks (rows wt (nat_of_int n))) in
@@ -27,16 +32,28 @@ let () =
           | "none" -> -1 | "h0" -> 0 | "h1" -> 1 | "h2" -> 2 | "eof" -> 3 + c
           | s -> let j = int_of_string (String.sub s 1 (String.length s - 1)) in
             if c > 0 then 3 + (j mod c) else 3 + c in
-        let permanent = (kind = "E" || kind = "S") in
-        let w k = let k = int_of_nat k in
+        let permanent = (kind = "E" || kind = "S" || kind = "C") in
+        (* the model asks for call indices from, S from, S (S from), ...: convert incrementally
+           (physical equality with the previous argument), falling back to the plain conversion *)
+        let last_n = ref O and last_i = ref 0 in
+        let fast_int k =
+          let i = (match k with S p when p == !last_n -> !last_i + 1 | _ -> int_of_nat k) in
+          last_n := k; last_i := i; i in
+        let w k = let k = fast_int k in
           if idx < 0 then true else if permanent then k < idx else k <> idx in
         let r = lib chunks w (nat_of_int n) wt in
         let dom_ok = List.for_all (fun (i, j) -> let i = int_of_nat i and j = int_of_nat j in 0 <= j && j < i && i < n) r.wcalls in
-        let calls = String.concat "," (List.map (fun (i, j) -> Printf.sprintf "%d.%d" (int_of_nat i) (int_of_nat j)) r.wcalls) in
+        let calls =
+          if ws = "w=#" then begin
+            let sum = ref 0 and k = ref 0 in
+            List.iter (fun (i, j) -> let i = int_of_nat i and j = int_of_nat j in
+                        sum := (!sum + (i * 1009 + j) * (!k mod 977 + 1)) mod 1000000007; incr k) r.wcalls;
+            Printf.sprintf "#=%d:%d" !k !sum end
+          else "=" ^ String.concat "," (List.map (fun (i, j) -> Printf.sprintf "%d.%d" (int_of_nat i) (int_of_nat j)) r.wcalls) in
         let lines = if idx < 0 then
             ";lines=" ^ String.concat "/" (List.map (fun l -> String.concat " " (List.map tok l)) (output (nat_of_int n) wt))
           else "" in
-        Printf.printf "err=%b;domain_ok=%b%s ## calls=%s\n" r.err dom_ok lines calls
+        Printf.printf "err=%b;domain_ok=%b%s ## calls%s\n" r.err dom_ok lines calls
       | _ -> print_endline "badcase"
     done
   with End_of_file -> ()
